@@ -59,6 +59,9 @@ def _h5_sensor(g, name, rows, vdtype):
     g.create_dataset(name, data=np.array([(t, v, b'nominal') for t, v in rows], dtype=dt))
 
 
+UNSIGNED = {'u': np.uint8, 'u16': np.uint16, 'u32': np.uint32, 'u64': np.uint64}     # sensor kinds of unsigned integer types
+
+
 def _rows(spec, t0, kind, samples):
     dt = spec['dt']
     if kind == 'f':
@@ -67,9 +70,24 @@ def _rows(spec, t0, kind, samples):
         return [(t0 + dt * d - 0.9 - (16.0 if d == 0 else 0.0), v.encode()) for d, v in samples], 'S16'
     if kind == 'b':
         return [(t0 + dt * d - 0.9 - (16.0 if d == 0 else 0.0), bool(v)) for d, v in samples], np.bool_
-    if kind == 'u':
-        return [(t0 + dt * d - 0.9 - (16.0 if d == 0 else 0.0), int(v)) for d, v in samples], np.uint8
+    if kind in UNSIGNED:
+        return [(t0 + dt * d - 0.9 - (16.0 if d == 0 else 0.0), int(v)) for d, v in samples], UNSIGNED[kind]
     return [(t0 + dt * d - 0.9 - (16.0 if d == 0 else 0.0), int(v)) for d, v in samples], np.int64
+
+
+def apply_meta(obs_params, meta):
+    """obs_params of a v4 part with the generated metadata (spec['meta']) applied: observer / description /
+    experiment_id, extra keys, dropped keys, dict order reversed."""
+    op = dict(obs_params)
+    for key in ('observer', 'description', 'experiment_id'):
+        if meta[key] != '' or key in op:
+            op[key] = meta[key]
+    for key in meta.get('drop', ()):
+        op.pop(key, None)
+    op.update(meta.get('extra', {}))
+    if meta.get('reverse'):
+        op = dict(reversed(list(op.items())))
+    return op
 
 
 class Part:
@@ -91,7 +109,7 @@ class Part:
                 if kind == 'f':
                     rows = [(t0 + spec['dt'] * pos / 4.0, float(v)) for pos, v in samples]
                 else:
-                    conv = {'b': bool, 'u': np.uint8}.get(kind, lambda v: v)
+                    conv = dict(UNSIGNED, b=bool).get(kind, lambda v: v)
                     rows = [(t0 + spec['dt'] * d - 0.9 - (16.0 if d == 0 else 0.0), conv(v)) for d, v in samples]
                 extra.append((sensor_name(fmt, short), rows))
             kw = dict(T=spec['T'], F=spec['F'], ants=tuple(spec['ants']), cbid='%010d' % (1000000000 + spec['start']),
@@ -116,6 +134,10 @@ class Part:
                 old = ts[a + '_observer']
                 ts.delete(a + '_observer')
                 ts[a + '_observer'] = moved(old)
+            if spec.get('meta'):
+                op = apply_meta(dict(ts['obs_params']), spec['meta'])
+                ts.delete('obs_params')
+                ts['obs_params'] = op
         elif fmt == 'v1':
             # v1 files store scans inside compound scans: cut the dumps at every event
             self.fn = os.path.join(tmp, '%s_%d.h5' % (tag, int(BASE[fmt] + spec['start'])))
@@ -136,6 +158,10 @@ class Part:
                 scans.append((csn, key[0], key[1], last(spec['acts'], a, 'slew'), b - a))
             mkv1(self.fn, scans, F=spec['F'], ants=tuple(spec['ants']), t0=BASE[fmt] + spec['start'], dt=spec['dt'],
                  seed=spec['seed'])
+            if spec.get('meta'):
+                with h5py.File(self.fn, 'r+') as f:
+                    for key in ('observer', 'description', 'experiment_id'):
+                        f.attrs[key] = spec['meta'][key]
         else:
             self.fn = os.path.join(tmp, '%s_%d.h5' % (tag, int(BASE[fmt] + spec['start'])))
             t0 = BASE[fmt] + spec['start']
@@ -163,19 +189,37 @@ class Part:
                         g2.attrs['description'] = moved(g2.attrs['description'])
         self.open_kwargs = dict(centre_freq=CENTRE[spec['cfv']]) if fmt == 'v3' else {}
 
-    def fresh(self):
+    def fresh(self, ref_ant=''):
         """A newly opened, independent data set object of this part (with the directly assigned arrays)."""
         if self.fmt == 'v4':
             from katdal.datasources import TelstateDataSource
             from katdal.visdatav4 import VisibilityDataV4
             x = self.x
-            d = VisibilityDataV4(TelstateDataSource(x.view, x.cbid, x.stream, chunk_store=x.store))
+            d = VisibilityDataV4(TelstateDataSource(x.view, x.cbid, x.stream, chunk_store=x.store), ref_ant)
         else:
-            d = katdal.open(self.fn, **self.open_kwargs)
+            d = katdal.open(self.fn, ref_ant, **self.open_kwargs)
         for name, vals in sorted(self.spec.get('arrs', {}).items()):
             d.sensor['Extra/c19_' + name] = np.array(vals)
         self.opened.append(d)
         return d
+
+    def path(self):
+        """What katdal.open takes for this part: the HDF5 file, or (v4) an RDB file of the telstate, written on first
+        use two levels below the directory of the npy chunk store (where katdal looks for it)."""
+        if self.fmt != 'v4':
+            return self.fn
+        if getattr(self, '_rdb', None) is None:
+            from katsdptelstate.rdb_writer import RDBWriter
+            x = self.x
+            for k, v in (('capture_block_id', x.cbid), ('stream_name', x.stream)):
+                if k not in x.telstate:
+                    x.telstate[k] = v
+            d = os.path.join(x.tmp, x.cbid)
+            os.makedirs(d, exist_ok=True)
+            self._rdb = os.path.join(d, '%s_%s.rdb' % (x.cbid, x.stream))
+            with RDBWriter(self._rdb) as w:
+                w.save(x.telstate)
+        return self._rdb
 
     def close(self):
         for d in self.opened:
@@ -188,15 +232,17 @@ class Part:
         self.opened = []
 
 
-def open_concat(parts, order, via_open):
-    """The concatenation of freshly opened parts given in input order `order` (indices into parts)."""
+def open_concat(parts, order, via_open, ref_ant=''):
+    """The concatenation of freshly opened parts given in input order `order` (indices into parts): through
+    katdal.open([file, ...]) (v4 parts: their telstate written as an RDB file next to the npy chunk store) when
+    via_open, all parts take the same keywords and no sensor was assigned directly; else from data set objects."""
     from katdal.concatdata import ConcatenatedDataSet
-    if via_open and all(p.fmt != 'v4' for p in parts) and not any(p.spec.get('arrs') for p in parts) \
-            and len({repr(p.open_kwargs) for p in parts}) == 1:
-        c = katdal.open([parts[i].fn for i in order], **parts[0].open_kwargs)
+    if via_open and not any(p.spec.get('arrs') for p in parts) and len({repr(p.open_kwargs) for p in parts}) == 1:
+        files = [parts[i].path() for i in order]
+        c = katdal.open(files, ref_ant, **parts[0].open_kwargs)
         for d in c.datasets:
             for p in parts:
-                if p.fn and os.path.basename(p.fn).split('.')[0] in d.name:
+                if os.path.basename(p.path()).split('.')[0] in d.name:
                     p.opened.append(d)
         return c, 'katdal.open'
     return ConcatenatedDataSet([parts[i].fresh() for i in order]), 'ConcatenatedDataSet'
